@@ -371,6 +371,8 @@ pub fn dfs_all(max_schedules: u64, mut run: impl FnMut(&[u8]) -> (Vec<u8>, bool)
     loop {
         let (branching, stop) = run(&prefix);
         count += 1;
+        // every enumerated schedule is a completed case for the hang watchdog
+        crate::driver::HEARTBEAT.fetch_add(1, std::sync::atomic::Ordering::Relaxed);
         if stop {
             return (count, false);
         }
